@@ -324,6 +324,31 @@ Definition c01_rd_run (derived_lon computed : list Q) (s : c01_lazy) (rs : list 
   fold_left (c01_rd_step derived_lon computed) rs s.
 
 (* ---------------------------------------------------------------------------------------------- *)
+(* what a decoded grid presents: the corner lists of its rows (the certified reading of a standard table) *)
+
+Definition c01_faces_of (t : table) : list (list Z) := map corners t.
+
+(* boolean well-formedness of a mesh over n nodes whose faces fit rows of width w *)
+Definition c01_wf_faceb (n : Z) (w : nat) (f : list Z) : bool :=
+  forallb (fun x => (0 <=? x) && (x <? n)) f && (length f <=? w)%nat.
+Definition c01_wf_facesb (n : Z) (w : nat) (faces : list (list Z)) : bool := forallb (c01_wf_faceb n w) faces.
+
+(* generators for the padding dialects of MPAS (zeros / last index repeated) and ESMF (-1) *)
+Definition c01_mpas_encode (zeros : bool) (w : nat) (faces : list (list Z)) : table :=
+  map (fun f => c01_mpas_enc_row f (repeat (if zeros then 0 else last f 0 + 1) (w - length f))) faces.
+Definition c01_esmf_encode (s : Z) (w : nat) (faces : list (list Z)) : list (list c01_ent) :=
+  map (fun f => c01_esmf_enc_row s f (repeat (EInt (-1)) (w - length f))) faces.
+Definition c01_scrip_encode (w : nat) (faces : list (list (Z * Z))) : list (list (Z * Z)) :=
+  map (fun f => f ++ repeat (last f (FILL, FILL)) (w - length f)) faces.
+
+(* io/_ugrid.py _read_ugrid, dimension renaming: node and face dimensions are taken from node_lon.dims[0]
+   and face_node_connectivity.dims[0] (the *_dimension attributes are looked up among the coordinates of
+   grid_topology, i.e. never found); the edge dimension is renamed only through edge_lon.
+   Result: (node renamed, face renamed, edge renamed) *)
+Definition c01_ugrid_dims (attr_node attr_face attr_edge has_edge_lon : bool) : bool * bool * bool :=
+  (true, true, has_edge_lon).
+
+(* ---------------------------------------------------------------------------------------------- *)
 (* format sniffing: io/utils.py _parse_grid_type — first matching test wins                          *)
 
 Record c01_keys := {
